@@ -221,6 +221,19 @@ def ext_status_offsets(tree, cls):
     return ks.pop()
 
 
+def reset_assignments(fn):
+    """top-level `self.<attr> = <constant>` statements of a method -> {attr: value}"""
+    out = {}
+    for n in fn.body:
+        if (isinstance(n, ast.Assign) and len(n.targets) == 1 and isinstance(n.targets[0], ast.Attribute)
+                and isinstance(n.targets[0].value, ast.Name) and n.targets[0].value.id == "self" and isinstance(n.value, ast.Constant)):
+            out[n.targets[0].attr] = n.value.value
+    return out
+
+
+RESET = {"_sock": None, "_target_is_connected": False, "_session": 0, "_connection_opened": False}
+
+
 def gen_lifecycle():
     if REPO not in sys.path:
         sys.path.insert(0, REPO)
@@ -250,6 +263,21 @@ def gen_lifecycle():
     if len(cfg["context"]) != 8 or len(cfg["cid"]) != 4 or len(cfg["vsn"]) != 4 or len(cfg["csn"]) != 2 or len(cfg["vid"]) != 2:
         raise GenError("CIPDriver._cfg: field widths")
     fb_flag, fb_size = fallback(t_drv)
+
+    # ---- close() and _abandon_transport() reset the same four attributes to the same values
+    # (Model/Lifecycle.v [reset_driver] is used for both)
+    for meth in ("close", "_abandon_transport"):
+        got = reset_assignments(_func(t_drv, meth, "CIPDriver"))
+        if got != RESET:
+            raise GenError(f"CIPDriver.{meth}: resets {got}, expected {RESET}")
+    for meth in ("_send", "_receive"):
+        fn = _func(t_drv, meth, "CIPDriver")
+        hs = [h for n in ast.walk(fn) if isinstance(n, ast.Try) for h in n.handlers]
+        if len(hs) != 1 or not (isinstance(hs[0].type, ast.Name) and hs[0].type.id == "Exception"):
+            raise GenError(f"CIPDriver.{meth}: expected one `except Exception` handler")
+        calls = [c.func.attr for st in hs[0].body for c in ast.walk(st) if isinstance(c, ast.Call) and isinstance(c.func, ast.Attribute)]
+        if "_abandon_transport" not in calls or not isinstance(hs[0].body[-1], ast.Raise):
+            raise GenError(f"CIPDriver.{meth}: the handler does not abandon the transport and re-raise")
 
     # ---- _forward_open / _forward_close
     fo = _func(t_drv, "_forward_open", "CIPDriver")
@@ -449,6 +477,7 @@ def gen_lifecycle():
     o.append(f"Definition CFG_VSN : bytes := {zb(cfg['vsn'])}.\n")
     o.append(f"Definition CFG_EXTENDED_FO : bool := {coq_bool(cfg['extended forward open'])}.\n")
     o.append(f"Definition CFG_CONNECTION_SIZE : Z := {cfg['connection_size']}.\n")
+    o.append("(* close() and _abandon_transport() both assign _sock = None, _target_is_connected = False, _session = 0,\n   _connection_opened = False; _send/_receive abandon the transport in their `except Exception` (checked by the generator) *)\n")
     o.append("(* with_forward_open: what the fallback assigns *)\n")
     o.append(f"Definition FALLBACK_EXTENDED_FO : bool := {coq_bool(fb_flag)}.\n")
     o.append(f"Definition FALLBACK_CONNECTION_SIZE : Z := {fb_size}.\n")
